@@ -311,10 +311,14 @@ class AsyncConnectionPool(AsyncRequestInterface):
         queued_requests = [request for request in self._requests if request.is_queued()]
         for pool_request in queued_requests:
             origin = pool_request.request.url.origin
+            # A connection may have turned idle since the clean-up above (another
+            # thread closing its response), so its expiry is checked again here.
             available_connections = [
                 connection
                 for connection in self._connections
-                if connection.can_handle_request(origin) and connection.is_available()
+                if connection.can_handle_request(origin)
+                and connection.is_available()
+                and not connection.has_expired()
             ]
             # An idle connection that a request has already been assigned to
             # is about to be used: it must not be closed to make room.
